@@ -2,6 +2,7 @@ import UtpVerif.Driver.Pure
 import UtpVerif.Driver.Wire
 import UtpVerif.Driver.Mtu
 import UtpVerif.Driver.TxRing
+import UtpVerif.Driver.Rx
 /-!
 Line-protocol driver: one op per input line (`<component> <op> args…`), one output line per op.
 The Rust harness (`/verif/harness`) executes the same lines on the real code; `tools/check.py`
@@ -13,6 +14,7 @@ structure St where
   rtte : Rtte := Rtte.init
   mtu : SegSizes := SegSizes.new true 1500 3
   tx : TxRing := TxRing.new 16
+  rx : RxSt := {}
   txPos : Nat := 0   -- bytes accepted so far (position-coded payload generator)
 
 def step (st : St) (line : String) : St × String :=
@@ -28,6 +30,7 @@ def step (st : St) (line : String) : St × String :=
       | some w => if w.startsWith "ready:" ∧ args.head? = some "writepos" then (w.drop 6).toNat?.getD 0 else 0
       | none => 0
     ({ st with tx := r, txPos := pos + acc }, o)
+  | "rx" :: args => let (r, o) := stepRx st.rx args; ({ st with rx := r }, o)
   | "rtte" :: args => let (r, o) := stepRtte st.rtte args; ({ st with rtte := r }, o)
   | _ => (st, "bad-op")
 
